@@ -735,6 +735,18 @@ Definition marshal (v : jv) : sout :=
   | x => x
   end.
 
+(* A history of serialisations on one runtime through the Go API / a script; every result is RETAINED by the caller.
+   The specification has no state: the value returned by a step is a function of that step alone, and stays what it
+   was whatever is serialised afterwards (the bytes returned by Object.MarshalJSON belong to the caller). *)
+Inductive hstep := HMarshal (v : jv) | HStringify (v : jv).
+
+Definition step_result (s : hstep) : sout :=
+  match s with
+  | HMarshal v => marshal v
+  | HStringify v => stringify v RNone VUndef
+  end.
+
+Definition run_history (h : list hstep) : list sout := map step_result h.
 
 (* JSON-shaped JS values (what JSON.parse can return, numbers restricted to the modelled ones) and the
    JSON value they denote; object members in OrdinaryOwnPropertyKeys order *)
